@@ -10,6 +10,12 @@ loss = Re<W, X> with a random (complex) cotangent W.
 Tolerance for a leaf gradient g: |g - g_ref|_max <= 50 (k^3 t_f + k t_b + k n eps) (1 + |g_ref|_max), k = max cond(A - e_c M) measured on
 the dense matrices, t_f / t_b the forward / backward solver tolerances (0 for direct solves); second order: 10 k times that.
 Cases in which the forward or the backward solve warned are discarded (counted): the property is about the gradient of the solution.
+
+Task sharedparam: ONE tensor object held at two different places of A and/or M (composed operators whose operands are built on the
+same tensor, caller-written classes holding it as an attribute and inside a sub-object / list / dict, both listed by
+_getparamnames; see build_shared). The implicit backward substitutes differentiable copies at every place (uselinopparams), so
+the leaf gradient is the sum over both places - which is what autograd through the dense matrix built from the same tensor gives.
+Same oracle and tolerances.
 """
 from __future__ import annotations
 
@@ -29,12 +35,18 @@ RULE = ("n 1..6, ncols 1..3, target batch rank 0..2 with independent sub-pattern
         "{none, E, E+M, M only}; forward method x backward options {default, exactsolve, cg, bicgstab, gmres}; which leaves require "
         "grad; first and second order (create_graph). Non-trivial = n>=2, nothing warned and the reference gradient w.r.t. the "
         "matrix leaf (or, if it does not require grad, any leaf) is non-zero; distinct by (method, bck, E mode, kind, dtype, spectrum, "
-        "batch class, order, n, seed mod 64).")
+        "batch class, order, n, seed mod 64). Task sharedparam: the same dimensions, A and/or M (E+M mode) holding ONE tensor object at two "
+        "different places: (op1(t)+op2(t))/2, 2 op1(t)-op2(t), op1(t)+opK(t) with opK = K t, op1(t).matmul(opK(t)) = t K t (non-linear in t), "
+        "caller-written classes with self.w and self.sub.w / self.lst[1] / self.dct['k'] (matrix (w+w2)/2 or w K w2), either order of "
+        "the two names, t a derived tensor or the leaf itself; kind label sh_<shape>.")
 ASSUMPTIONS = [
     "reference gradients by torch autograd through torch.linalg.solve on the dense shifted matrices (float64/complex128)",
     "iterative solvers run with rtol=1e-11, atol=1e-14 (forward and backward) except the default backward above 5 unknowns (rtol 1e-6)",
     "tolerance 50 (k^3 t_f + k t_b + k n eps)(1+|g_ref|), second order x 10 k; k measured by SVD of the dense shifted matrices",
     "cases whose forward/backward solve warned are discarded and counted",
+    "sharedparam: parameter names with sub-objects, list indices and dict keys ('sub.w', 'lst[1]', \"dct['k']\") are accepted by "
+    "getparamnames (xitorch/_utils/attr.py); constants K (unitary-derived or a detached inverse of A) are not parameters; the composed "
+    "matrix equals the target up to cond(A) eps, covered by the k n eps term",
 ]
 LEVEL_TEXT = ("Exploration against a differentiable dense reference built from the same leaves: first- and second-order leaf gradients "
               "of random contractions for every operator kind, method pair, E/M mode and batch pattern.")
